@@ -156,7 +156,7 @@ class Driver:
             return self._req(line, timeout)
         except DriverTimeout:
             op = line.split(" ", 1)[0]
-            if op in ("run", "cmpmat", "voc", "stats") or (op == "parse" and " id=" not in line):
+            if timeout >= 10 and op in ("run", "cmpmat", "voc", "stats") or (op == "parse" and " id=" not in line):
                 return self._req(line, timeout * 4)
             raise
 
